@@ -536,6 +536,35 @@ class Engine:
     def check_frame(self, interp, ct):
         """every (object, field) pair of an entry object not listed in modifies is unchanged"""
         ctx = interp.ctx
+        if not ct.ghost.get("no_frame"):
+            # attributes OUTSIDE the class model written on entry objects: state kept on the object that no `modifies` entry allows
+            bad = []
+            for label, field, ref in getattr(ctx, "unmodelled_writes", []):
+                allowed = False
+                for m in ct.modifies:
+                    if "." in m and not m.startswith("heap:") and m.split(".", 1)[1] == field:
+                        v = ctx.entry_env.get(m.split(".", 1)[0])
+                        if isinstance(v, SV) and v.ty.name == "Ref" and v.t.eq(ref):
+                            allowed = True
+                if not allowed:
+                    bad.append(label)
+            if bad:
+                saved_pc = list(ctx.pc)
+                ob = ctx.oblige("frame", "assignment to an attribute outside modifies", z3.BoolVal(False), top=True,
+                                info={"clause": "frame: nothing outside `modifies` is written", "written": bad[:6]})
+                ob.detail = "writes: " + ", ".join(bad[:6])
+                ctx.pc = saved_pc
+        if ct.ghost.get("pure"):
+            # ghost pure: "asking again gives the same answer" - the function keeps no state: it writes NO attribute of an object that
+            # existed at entry (this obligation is emitted on every path, violated or not)
+            fresh = getattr(ctx, "fresh_refs", set())
+            bad = [k for k, r in getattr(ctx, "writes", []) if r.sexpr() not in fresh] + [l for l, _, _ in getattr(ctx, "unmodelled_writes", [])]
+            saved_pc = list(ctx.pc)
+            ob = ctx.oblige("frame", "pure: no attribute of an entry object is written", z3.BoolVal(not bad), top=True,
+                            info={"clause": "pure: no state is kept between calls", "written": bad[:6]})
+            if bad:
+                ob.detail = "writes: " + ", ".join(bad[:6])
+            ctx.pc = saved_pc
         if ct.ghost.get("no_frame"):
             return
         for key, (arr0, ty) in ctx.heap0.items():
